@@ -12,7 +12,7 @@ EXTENDS GlomMutate
 CONSTANTS MaxSpine, LevelClasses, LeafOpts, SideOpts,
           Alpha,          \* "small" | "full": step alphabet for paths of length <= 2
           Alpha3,         \* "none" | "p" | "small": alphabet for paths of length 3
-          Stars           \* "no" | "also" | "only": paths with the wildcard '*' among the parent segments
+          Stars           \* "no" | "also" | "only": paths with the wildcard '*' among the parent segments; "deep": only '**' paths
 
 VARIABLE exp             \* what the law expects for the case (Ref(case))
 vars == <<mvars, exp>>
@@ -36,16 +36,27 @@ MkHeap(levels, leaf, side) ==
       mix == CASE side = "mixdict" -> Cell("dict", << <<VStr("a"), VInt(1)>>, <<VStr("0"), VInt(2)>>, <<VStr("b"), VInt(3)>> >>)
                [] side = "mixlist" -> Cell("list", <<VInt(1), VInt(2)>>)
                [] OTHER -> Cell("obj", << <<VStr("a"), VInt(1)>>, <<VStr("0"), VInt(2)>>, <<VStr("b"), VInt(3)>> >>)
+      \* side "twin": the root's second entry is a twin of its first: a parallel spine of cells n+Extra+1..
+      \* (levels 2..n, then a twin of a container leaf) EQUAL to the original spine but made of distinct cells
+      tw(i) == n + Extra + i - 1
+      twinleaf == IF IsRef(leaf) /\ leaf.a \in {-1, -2} THEN VRef(n + Extra + n) ELSE fix(leaf)
+      one(c, v) == IF c \in {"list", "tuple"} THEN Cell(c, <<v>>) ELSE Cell(PyCls(c), << <<Key1(c), v>> >>)
+      two(c, v, w) == IF c \in {"list", "tuple"} THEN Cell(c, <<v, w>>)
+                      ELSE Cell(PyCls(c), << <<Key1(c), v>>, <<Key2(c), w>> >>)
       cell(i) == LET c == levels[i] IN
-                 IF c \in {"list", "tuple"}
-                 THEN Cell(c, IF side = "absent" THEN <<first(i)>> ELSE <<first(i), second(i)>>)
-                 ELSE Cell(PyCls(c), IF side = "absent" THEN << <<Key1(c), first(i)>> >>
-                                     ELSE << <<Key1(c), first(i)>>, <<Key2(c), second(i)>> >>)
-  IN [i \in 1..(n + Extra) |-> IF i <= n THEN cell(i)
-                               ELSE IF i = n + 1 THEN Cell("dict", <<>>)
-                               ELSE IF i = n + 2 THEN Cell("list", <<>>)
-                               ELSE IF i = n + 3 THEN Cell("frozenset", <<VInt(1)>>)
-                               ELSE mix]
+                 IF side = "twin" THEN (IF i = 1 THEN two(c, first(1), IF n >= 2 THEN VRef(tw(2)) ELSE twinleaf)
+                                        ELSE one(c, first(i)))
+                 ELSE IF side = "absent" THEN one(c, first(i)) ELSE two(c, first(i), second(i))
+      twin(i) == one(levels[i], IF i < n THEN VRef(tw(i + 1)) ELSE twinleaf)       \* i in 2..n
+      ntwin == IF side = "twin" /\ n >= 1 THEN n ELSE 0
+  IN [i \in 1..(n + Extra + ntwin) |->
+        IF i <= n THEN cell(i)
+        ELSE IF i = n + 1 THEN Cell("dict", <<>>)
+        ELSE IF i = n + 2 THEN Cell("list", <<>>)
+        ELSE IF i = n + 3 THEN Cell("frozenset", <<VInt(1)>>)
+        ELSE IF i = n + 4 THEN mix
+        ELSE IF i < n + Extra + n THEN twin(i - n - Extra + 1)
+        ELSE Cell(IF IsRef(leaf) /\ leaf.a = -2 THEN "list" ELSE "dict", <<>>)]
 Root(levels, leaf) == LET n == Len(levels) IN
   IF n > 0 THEN VRef(1) ELSE IF IsRef(leaf) THEN VRef(n - leaf.a) ELSE leaf
 
@@ -69,10 +80,13 @@ Final3 == CASE Alpha3 = "p" -> PFinal [] Alpha3 = "small" -> SmallFinal [] OTHER
 Paths2 == {<<f>> : f \in Final2} \cup {<<p, f>> : p \in Parent2, f \in Final2}
 Paths3 == {<<p, q, f>> : p \in Parent3, q \in Parent3, f \in Final3}
 X == Step("x", VNone)                                   \* the wildcard '*'
+XX == Step("X", VNone)                                  \* the wildcard '**'
+DeepPaths == {<<XX, f>> : f \in Final2} \cup {<<p, XX, f>> : p \in Parent2, f \in Final2}
+             \cup {<<XX, p, f>> : p \in Parent2, f \in Final2}
 StarPaths == {<<X, f>> : f \in Final2} \cup {<<X, X, f>> : f \in Final2}
              \cup {<<p, X, f>> : p \in Parent2, f \in Final2} \cup {<<X, p, f>> : p \in Parent2, f \in Final2}
-PathsFor(h) == (IF Stars = "only" THEN {} ELSE IF Len(h) - Extra >= 2 THEN Paths2 \cup Paths3 ELSE Paths2)
-               \cup (IF Stars = "no" THEN {} ELSE StarPaths)
+PathsFor(h) == (IF Stars \in {"only", "deep"} THEN {} ELSE IF Len(h) - Extra >= 2 THEN Paths2 \cup Paths3 ELSE Paths2)
+               \cup (IF Stars \in {"no", "deep"} THEN {} ELSE StarPaths) \cup (IF Stars = "deep" THEN DeepPaths ELSE {})
 
 \* ---- faults ---------------------------------------------------------------------------
 NoFlags(h) == [a \in 1..Len(h) |-> ""]
